@@ -91,18 +91,20 @@ Proof. exact gen_aggregate_total. Qed.
 Print Assumptions C05_gen_aggregate_total.
 
 (* the revocation entry xmodel computes is what the code's two functions compute, whatever the
-   answer (short, long, nil entries, nil server results, any values), action, validator, time *)
+   answer (short, long, nil entries, nil server results, any values), action, validator, time -
+   whenever notation owns the check (no plugin with the revocation capability: C05_full_owner_meaning) *)
 Theorem C05_gen_aggregate_equiv :
   forall (C : Type) (subj : C -> string) x results chain, abstracts C subj x results chain ->
-    x_action x <> Skip -> x_val x <> 4%N -> x_err x = false ->
+    owner x = OwnerNotation -> x_action x <> Skip -> x_val x <> 4%N -> x_err x = false ->
     xo_result (xmodel x) = gen_aggregate C subj results chain.
 Proof. exact gen_aggregate_xmodel. Qed.
 Print Assumptions C05_gen_aggregate_equiv.
 
 (* [model_aggregate] is the place in xmodel where the same decision is made *)
-Theorem C05_gen_model_aggregate_place : forall x, x_action x <> Skip -> x_val x <> 4%N -> x_err x = false ->
+Theorem C05_gen_model_aggregate_place : forall x, owner x = OwnerNotation ->
+  x_action x <> Skip -> x_val x <> 4%N -> x_err x = false ->
   xo_result (xmodel x) = Some (model_aggregate x).
-Proof. exact xmodel_aggregate. Qed.
+Proof. exact xmodel_aggregate_o. Qed.
 Print Assumptions C05_gen_model_aggregate_place.
 
 (* ---------- the property's clauses transported onto the code's values ---------- *)
